@@ -108,6 +108,15 @@ def classify(P, f, i, n, depth=0, enumerated=False):
                     return "sensitive", "collected into %s: stops at the first failing element in iteration order" % _tyname(t), "first-failure"
                 if is_unordered(t) and not enumerated:
                     return "insensitive", "collected into %s" % peel_ty(t).split("<")[0], None
+                own = _own_from_iter(P, t)
+                if own is not None and depth < 4:
+                    # collected into a type of the workspace: what its own FromIterator does with the items decides
+                    g, lid = own
+                    v = follow_local(P, g, lid, -1, depth + 1, enumerated, None)
+                    if v[0] == "insensitive":
+                        return "insensitive", "collected into %s, whose FromIterator is order-insensitive (%s)" % (_tyname(t), v[1]), None
+                    if v[0] == "sensitive":
+                        return v
                 collected = _tyname(t)
                 cur_i, cur = pi, p
                 continue
@@ -179,6 +188,17 @@ def classify(P, f, i, n, depth=0, enumerated=False):
     if collected:
         return "sensitive", "collected into ordered container %s without sorting" % collected, collected
     return "unknown", "escapes the recognised idioms", None
+
+
+def _own_from_iter(P, t):
+    """(from_iter impl, local of its iterator parameter) when `t` is an ADT of the workspace with its own FromIterator"""
+    adt = peel_ty(t).split("<")[0]
+    if adt not in P.adts:
+        return None
+    hits = [g for g in P.trait_impls("core::iter::traits::collect::FromIterator", "from_iter") if g.self_adt == adt and not g.derived]
+    if len(hits) != 1 or not hits[0].params or hits[0].params[0].get("k") != "Binding":
+        return None
+    return hits[0], hits[0].params[0]["local"]
 
 
 def follow_local(P, f, lid, let_i, depth, enumerated, collected):
